@@ -5,6 +5,7 @@
 #include <numeric>
 
 #include "libphysica/Special_Functions.hpp"
+#include "libphysica/Verif_Hooks.hpp"
 
 namespace libphysica
 {
@@ -728,6 +729,10 @@ Matrix Matrix::Inverse() const
 				if(fabs(A[j][i]) > fabs(A[pivot_row][i]))
 					pivot_row = j;
 			if(pivot_row != i)
+			{
+				LIBPHYSICA_VERIF_TICK("Inverse.row_exchange");
+			}
+			if(pivot_row != i)
 				std::swap(A[i], A[pivot_row]);
 			if(A[i][i] == 0)
 			{
@@ -1101,6 +1106,7 @@ std::vector<double> Eigenvalues(const Matrix& M)
 	int i_max = 200;
 	for(int i = 0; i < i_max; i++)
 	{
+		LIBPHYSICA_VERIF_TICK("Eigenvalues.sweep");
 		std::pair<Matrix, Matrix> qr = QR_Decomposition(A);
 
 		A = qr.second * qr.first;
@@ -1180,6 +1186,7 @@ Vector Find_Eigenvector_Rayleigh(Matrix& M, double& eigenvalue)
 	for(int iteration = 0; iteration < max_iterations && epsilon > 1.0e-10; iteration++)
 	{
 		Vector b_before = b;
+		LIBPHYSICA_VERIF_TICK("Eigenvector.iteration");
 		b				= Solve_Linear_System(M_shifted, b);
 		b.Normalize();
 		// Convergence of the direction (the overall sign of b is arbitrary and may flip between iterations).
